@@ -359,6 +359,10 @@ def run(ctx):
     from .poolvalue import check_fee_lookup_same_asset
     check_fee_lookup_same_asset(ctx, model, "terraswap_pair", "C14-S1")
     check_fee_lookup_same_asset(ctx, model, "stableswap_3pool", "C14-S1")
+    from .poolvalue import check_fee_deduction_all_kinds, check_raw_balance_single_consumer
+    for crate in ("terraswap_pair", "stableswap_3pool"):
+        check_fee_deduction_all_kinds(ctx, model, crate, "C14-S1")
+        check_raw_balance_single_consumer(ctx, model, crate, "C14-S1")
     check_trio_directions(ctx, model)
     check_pair_directions(ctx, model)
     check_sim_vs_swap(ctx, model, "terraswap_pair", 7)
